@@ -1,5 +1,5 @@
 (** C18 — Rule providers converge to the latest valid content of their sources.
-    Property theorems only; proofs are in C18/Proofs.v.
+    Property theorems only; proofs are in C18/Proofs*.v, C18/Accept*.v, C18/Quiesce.v.
 
     Vocabulary (C18/Spec.v, written from the property text): [latest_valid acc seen]
     is the latest valid content of a source given everything seen of it (most
@@ -266,10 +266,12 @@ Print Assumptions C18_blob_F6_refuted.
     the handlers) is read modulo calls that change nothing ([norm_trace]: an update
     of something not loaded is a creation; a deletion of something not loaded and
     an update to the loaded content are dropped).
-    Outside the guards of the open findings C18-F7 (a relist finds a stored object
-    missing: the tombstone makes [filter] panic; not needed for the repaired
-    provider, [f7 = true]) and C18-F8 (an object arrives under a name whose stored
-    object has another UID): no handler panics and the trace is right. *)
+    Outside the guards of the repaired findings C18-F7 (a relist finds a stored object
+    missing: the tombstone made [filter] panic; guard needed only for the pinned
+    provider, [f7 = false]; repaired by 46996f5) and C18-F8 (an object arrives under a
+    name whose stored object has another UID; repaired by f7bb6ba — guard needed for
+    both variants: the repaired UID-change path is covered by witness and
+    correspondence only): no handler panics and the trace is right. *)
 Theorem C18_k8s_all_histories : forall O,
   (forall s, deletable O s = true) ->
   forall f7 f8 nn h,
@@ -293,7 +295,7 @@ Theorem C18_k8s_converges : forall O,
 Proof. exact k8s_converges. Qed.
 Print Assumptions C18_k8s_converges.
 
-(** C18-F7: deleted while the watch is broken — the provider as it is panics
+(** C18-F7: deleted while the watch is broken — the provider of the pinned commit panics
     (the process dies, the rule set stays loaded); the repaired one unloads it *)
 Theorem C18_k8s_F7_pinned_refuted :
   exists h, k8s_wf 1 h = true /\ k8s_guard_F7 1 h = true /\ k8s_guard_F8 1 h = false /\
@@ -333,7 +335,8 @@ Print Assumptions C18_k8s_F8_pinned_refuted.
     a valid content other than the loaded one is loaded iff the processor accepts it
     NOW, else the previous version stays; every look decides again. *)
 
-(** the processor has the three properties of the real one *)
+(** meaning of the specification's processor (unfolds [dacc]; not in the property theorem list):
+    the processor has the three properties of the real one *)
 Theorem C18_accept_processor : forall ok0 clash srcs A self c,
   (dacc ok0 clash srcs A self c = true <->
    ok0 c = true /\ forall t d, In t srcs -> t <> self -> A t = Some d -> clash c d = false) /\
@@ -354,7 +357,8 @@ Theorem C18_accept_latest_applicable : forall ok0 clash srcs s ls,
 Proof. intros. apply spec_latest_applicable. reflexivity. Qed.
 Print Assumptions C18_accept_latest_applicable.
 
-(** retry, as a statement about the calls that achieve the specification: a valid
+(** meaning of the specification (unfolds [offer]; says nothing about a provider; not in the property theorem
+    list): retry, as a statement about the calls that achieve the specification: a valid
     content that is not the loaded one is offered at EVERY look, answered as of now *)
 Theorem C18_accept_retry : forall ok0 clash srcs A s c,
   A s <> Some c ->
@@ -553,7 +557,8 @@ Theorem C18_fs_eager_hash_refuted :
 Proof. exact fs_eager_refuted. Qed.
 Print Assumptions C18_fs_eager_hash_refuted.
 
-(** Kubernetes: NO retry.  The provider's calls do not depend on the processor's answers
+(** Kubernetes: NO retry = open finding C18-F10 (replayed on the real code; see C18_k8s_F10_refuted below).
+    The provider's calls do not depend on the processor's answers
     (it keeps no record of what was applied); a version refused because another source
     held its path is offered again neither when that source goes away nor at a relist
     (same generation), only when the object's spec changes.  The witness: the polling
@@ -597,6 +602,7 @@ Print Assumptions C18_k8s_accept_next_generation_loads.
 Theorem C18_k8s_F10_refuted :
   let ok := fun _ : cid => true in
   k8s_wf 2 hk_F10 = true /\ k8s_guard_F10 ok 2 0 hk_F10 = true /\
+  k8s_dyn_repo_after ok 2 hk_F10 = k8s_ref_repo_after ok 2 hk_F10 /\
   k8s_dyn_repo_after ok 2 hk_F10 = map (fun _ => None) k8c_srcs /\
   free_for pclash k8c_srcs (repo_fun k8c_srcs (k8s_dyn_repo_after ok 2 hk_F10)) (Sid 1) 5 = true /\
   k8s_dyn_repo_after ok 2 (hk_F10 ++ [KRelist [kB1]]) = map (fun _ => None) k8c_srcs /\
